@@ -173,6 +173,18 @@ Theorem cr_flag_refuted : exists theta : float, flag theta = true /\ crot_branch
 Proof. exact ProofsFloat.cr_flag_refuted. Qed.
 Print Assumptions cr_flag_refuted.
 
+Theorem rx_gate_meaning_K : forall k q, - 4096 <= k <= 4096 -> flag (ang_a k) = true ->
+  sop_of_gate (mkGate cRX [q] [] [q] (Some (PFloat (ang_a k))) (Some (ang_a k)) false)
+  = Some (S1 (of_mat1 (M_RX (Z.to_nat (k mod 4)))) (m_RX_branch (Z.to_nat (k mod 4))) q).
+Proof. exact ProofsExec.rx_gate_meaning_K. Qed.
+Print Assumptions rx_gate_meaning_K.
+
+Theorem crx_gate_meaning_K : forall k c t, c <> t -> - 4096 <= k <= 4096 -> flag (ang_pi k) = true ->
+  sop_of_gate (mkGate cCRX [c; t] [c] [t] (Some (PFloat (ang_pi k))) (Some (ang_pi k)) false)
+  = Some (S2 (of_mat2 (M_CRX (Z.to_nat (k mod 4)))) (m_CRX_branch (Z.to_nat (k mod 4))) c t).
+Proof. exact ProofsExec.crx_gate_meaning_K. Qed.
+Print Assumptions crx_gate_meaning_K.
+
 Example dispatch_selects_nonvacuous : flag (ang_a 7) = true /\ flag (ang_pi 3) = true.
 Proof. split; vm_compute; reflexivity. Qed.
 
